@@ -285,6 +285,10 @@ def _flags(ns, prefix="field_"):
     stripped = [x[len(np_):] if np_ and x.startswith(np_) and len(x) > len(np_) else x for x in normed]
     if len(set(normed)) < len(normed) or len(set(stripped)) < len(stripped):
         f["near_duplicates"] = True
+    import collections as _c
+
+    if any(v >= 3 for v in _c.Counter(stripped).values()):
+        f["three_names_one_identifier"] = True   # the same-name fallback compares a newcomer with one earlier name only
     if any(names.norm(n) == "" for n in ns):
         f["empty_after_sanitising"] = True
     if any(re.search(r"[ .\-]", n) for n in ns):
